@@ -141,6 +141,39 @@ theorem mom_conformal (Γ Γt : Fin 3 → Fin 3 → Fin 3 → K) (G U Ut Aut M :
 `γ̃ = δ`, `p = ψ⁻⁴ = 1/4` (`γ_ij = 4δ_ij`, `γ^ij = δ^ij/4`), `∂φ = (1,0,0)`, `Γ̃ = 0`, physical connection from [A] (2.8.14),
 `∂_cγ^ab` from metric compatibility (`= −4p δ^ab ∂_cφ`), `Ã^ij` symmetric trace-free and not diagonal, arbitrary `∂_cÃ^ab`,
 `K = 3`, `∂K = (7,1,0)`: all hypotheses hold and both sides are `37/12`. -/
+/-! ### `Γ̃^j_jm = 0` from `φ = (1/12) ln det γ` -/
+
+/-- contracted Christoffel symbol: `Γ^j_jm = ½ γ^jk ∂_mγ_jk` (symmetric `γ^jk`). -/
+theorem christoffel_trace (D : Fin 3 → K → K) (U G : Fin 3 → Fin 3 → K) (hsU : Sym U) (m : Fin 3) :
+    ∑ j, christoffel2 D U G j j m = (1 / 2) * ∑ j, ∑ k, U j k * D m (G j k) := by
+  have u01 := hsU 1 0; have u02 := hsU 2 0; have u12 := hsU 2 1
+  simp only [christoffel2, christoffel1, Fin.sum_univ_three, u01, u02, u12]
+  ring
+
+/-- `½ γ^jk ∂γ_jk = 6 ∂φ` when `γ^ab det γ = cof_ab` and `∂φ = ∂(det γ)/(12 det γ)` (Jacobi's formula). -/
+theorem half_trace_logdet (G U dG : Fin 3 → Fin 3 → K) (dφ : K) (hdet : det3 G ≠ 0) (h12 : (12 : K) ≠ 0)
+    (hUc : ∀ a b, U a b * det3 G = cof3 G a b) (hdφ : dφ = ddet3 G dG / (12 * det3 G)) :
+    (1 / 2) * ∑ j, ∑ k, U j k * dG j k = 6 * dφ := by
+  have hU : ∀ a b, U a b = cof3 G a b / det3 G := fun a b => by rw [← hUc a b, mul_div_assoc, div_self hdet, mul_one]
+  have h2 : (2 : K) ≠ 0 := fun h => h12 (by rw [show (12 : K) = 2 * 6 by norm_num, h, zero_mul])
+  simp only [hdφ, ddet3, hU, Fin.sum_univ_three]
+  field_simp
+  ring
+
+/-- the conformal connection is trace-free, `Γ̃^j_jm = Γ^j_jm − 6∂_mφ = 0`. -/
+theorem Gammat_trace_zero (Γ Γt : Fin 3 → Fin 3 → Fin 3 → K) (G U : Fin 3 → Fin 3 → K) (dφ : Fin 3 → K) (hsymG : Sym G)
+    (hGU : ∀ i k : Fin 3, ∑ j, G i j * U j k = delta i k)
+    (hΓrel : ∀ k i j, Γ k i j = Γt k i j + 2 * (delta k i * dφ j + delta k j * dφ i - G i j * ∑ l, U k l * dφ l))
+    (hΓtr : ∀ m, ∑ j, Γ j j m = 6 * dφ m) (m : Fin 3) : ∑ j, Γt j j m = 0 := by
+  have h : ∑ j, Γ j j m = (∑ j, Γt j j m) + 2 * ((∑ j : Fin 3, delta j j) * dφ m) + 2 * (∑ j, delta j m * dφ j)
+      - 2 * ∑ j, ∑ l, G m j * U j l * dφ l := by
+    have g0 := hsymG 0 m; have g1 := hsymG 1 m; have g2 := hsymG 2 m
+    simp only [hΓrel, Fin.sum_univ_three, g0, g1, g2]; ring
+  have d0 : (∑ j : Fin 3, (delta j j : K)) = 3 := by simp [delta]
+  have d1 : ∑ j, delta j m * dφ j = dφ m := by simp [delta, Finset.sum_ite_eq']
+  rw [hΓtr, d0, d1, contract_GU G U hGU dφ m] at h
+  linear_combination -h
+
 namespace ExMom
 def p : ℚ := 1 / 4
 def G : Fin 3 → Fin 3 → ℚ := vec3 (vec3 4 0 0) (vec3 0 4 0) (vec3 0 0 4)
